@@ -81,6 +81,13 @@ macro_rules! tiny {
         impl AsPrimitive<$name> for usize { fn as_(self) -> $name { $name::trunc(self as u64) } }
         impl AsPrimitive<u64> for $name { fn as_(self) -> u64 { self.0 } }
         impl AsPrimitive<$name> for u64 { fn as_(self) -> $name { $name::trunc(self) } }
+        impl AsPrimitive<$name> for i8 { fn as_(self) -> $name { $name::trunc(self as u64) } }
+        impl AsPrimitive<$name> for u8 { fn as_(self) -> $name { $name::trunc(self as u64) } }
+        impl AsPrimitive<$name> for i16 { fn as_(self) -> $name { $name::trunc(self as u64) } }
+        impl AsPrimitive<$name> for u16 { fn as_(self) -> $name { $name::trunc(self as u64) } }
+        impl AsPrimitive<$name> for i32 { fn as_(self) -> $name { $name::trunc(self as u64) } }
+        impl AsPrimitive<$name> for u32 { fn as_(self) -> $name { $name::trunc(self as u64) } }
+        impl AsPrimitive<$name> for i64 { fn as_(self) -> $name { $name::trunc(self as u64) } }
         impl From<$name> for u64 { fn from(x: $name) -> u64 { x.0 } }
         impl From<$name> for usize { fn from(x: $name) -> usize { x.0 as usize } }
         impl From<$name> for f64 { fn from(x: $name) -> f64 { x.0 as f64 } }
